@@ -13,7 +13,7 @@ from sdpcap.capture import Captured, SymProgram, capture, capture_call, extract
 from sdpcap.embed import coord_values, linear_constraints, objective_term, prove, rv, z3_affine
 from sdpcap.task import SdpTask
 from symnp.core import And, Or, SymBool, lift
-from symnp.harness import Obligation, eq
+from symnp.harness import Obligation, eq, jsonable
 from props.common import Task, prod
 from props.c10 import tr
 from toqito.nonlocal_games.nonlocal_game import NonlocalGame
@@ -37,15 +37,20 @@ META = {
                    "principal submatrix => NPA_k' <= NPA_k; the NPA constraints imply that M is a non-signalling box and the captured nonsignaling_value "
                    "program is equivalent to the LP over non-signalling boxes (both embeddings) => NPA_k <= NS; NS <= 1 by arithmetic. See-saw programs: T1 "
                    "against max Re sum pV Tr(B^dagger A) over POVMs (Alice: sub-normalised by tau). BCS constructor: complete enumeration of all 0/1 "
-                   "constraint tensors of the stated sizes (finite space, no solver content).",
+                   "constraint tensors of the stated sizes (finite space, no solver content). Large games: classical_value's dispatch of strategy indices "
+                   "(single-core loop up to 1000 strategies, multiprocessing.Pool.starmap above) is executed with process_iteration replaced by an uninterpreted "
+                   "function i -> t_i (one solver real per index), the pool by an in-process stub and the builtin max by a definitional max symbol; z3 decides that "
+                   "the result is the maximum of t over EVERY index 0..N-1 (N up to 2187); a model is turned into a real game in which the missed strategy is the unique "
+                   "perfect one and replayed through the public API with the real pool. Call histories: NPA / NS programs captured from a game object on which "
+                   "classical_value() has already been called (the object's state must not change); 0/1 predicate tensors stored as integers are run as witnesses.",
     "bounds": {"quick": "classical value: all shapes (A,B,X,Y) with A,B in {2,3}, X,Y in {1,2,3}, <= 9 strategies on the enumerated side and <= 108 strategy pairs; product game: (2,2,2,2),(2,3,1,2),(3,2,2,1); "
-                        "NPA / NS certificates: shapes (2,2,2,2),(2,3,2,2),(3,2,1,2),(2,2,3,2), levels 1,'1+ab',2 (level 2 for (2,2,2,2),(3,2,1,2)); see-saw: (2,2,2,2),(3,2,2,2) local dim 2; BCS: 2 constraints x 2 variables (256 tensors)",
+                        "large-game dispatch: 6 shapes with 512..2048 enumerated strategies (both branches, swap and no swap); NPA / NS certificates: shapes (2,2,2,2),(2,3,2,2),(3,2,1,2),(2,2,3,2),(2,2,2,3),(2,2,2,1), levels 1,'1+ab',2 (level 2 for (2,2,2,2),(3,2,1,2)); see-saw: (2,2,2,2),(3,2,2,2) local dim 2; BCS: 2 constraints x 2 variables (256 tensors)",
                "thorough": "classical value: A,B in {2,3,4}, <= 9 enumerated strategies, <= 729 pairs; NPA level 2 for all listed shapes, BCS 3x2 and 1x3"},
     "trusted_base": ["numpy object-array semantics (translator validation)", "cvxpy evaluates its own affine expressions (extraction, cross-checked)",
                      "principal submatrices / v v^T / traces of PSD matrices are PSD / >= 0 (used as mathematical facts in the certificates)",
                      "the conic solver returns the optimum of the program it is handed", "z3 5.1.0"],
     "outside_claim": ["that a feasible point of the see-saw programs is achieved by a quantum strategy (lower bound <= NPA bound): a theorem about that parametrisation, not glue",
-                      "numerical optimality / local optima of the see-saw iteration", "the multiprocessing branch (> 1000 strategies): same process_iteration body",
+                      "numerical optimality / local optima of the see-saw iteration", "games with more than 9 and at most 1000 enumerated strategies end to end (covered in two halves: process_iteration with every entry symbolic up to 9, the dispatch of strategy indices up to 2187 with process_iteration uninterpreted)",
                       "order independence beyond 'classical_value leaves the attributes untouched' (SDP methods are captured, they do not assign to the attributes)"],
     "assumptions": ["floats modelled as reals"],
 }
@@ -105,6 +110,10 @@ def ob_classical(A, B, X, Y):
         for _ in range(4):
             p = rng.random((X, Y))
             out.append({"p": p / p.sum(), "V": rng.integers(0, 2, size=(A, B, X, Y)).astype(float)})
+        # a 0/1 predicate stored as an INTEGER tensor (the natural way to write one down)
+        p = rng.random((X, Y))
+        out.append({"p": p / p.sum(), "V": rng.integers(0, 2, size=(A, B, X, Y)).astype(np.int64)})
+        out.append({"p": np.full((X, Y), 1.0 / (X * Y)), "V": np.ones((A, B, X, Y), dtype=np.int64)})
         # the predicate that only the LAST answer of Bob wins
         V = np.zeros((A, B, X, Y))
         V[:, B - 1, :, :] = 1
@@ -231,7 +240,7 @@ def ob_classical_dispatch(A, B, X, Y):
     mod = "toqito.nonlocal_games.nonlocal_game"
     return Obligation("classical_value.large_game_enumeration_reaches_every_strategy_of_the_enumerated_player", cfg, build, call, lambda i: None,
                       post=post, objzeros=(NG,), extra_patch={mod: {"multiprocessing": _InlineMP, "max": _solver_max}},
-                      neg_control=False, tv=True, max_paths=8, weight=max(30, N // 20),
+                      neg_control=False, tv=True, max_paths=8, weight=max(30, N // 20), dtype_variants=False,
                       functions=["NonlocalGame.classical_value (dispatch of strategy indices; process_iteration as uninterpreted i -> t_i; "
                                  "multiprocessing.Pool as in-process stub)"])
 
@@ -334,7 +343,7 @@ class NpaTask(Task):
     engine = "E2-sdpcap (T3 certificates in z3)"
     weight = 20
 
-    def __init__(self, shape, k, kind, k_hi=None, history=()):
+    def __init__(self, shape, k, kind, k_hi=None, history=(), game=None, game_name=None):
         name = {"classical_le_npa": "npa.every_deterministic_strategy_is_feasible_with_its_own_value",
                 "npa_implies_ns": "npa.constraints_imply_nonsignalling_box",
                 "level_monotone": "npa.higher_level_equalities_imply_lower_level_ones"}[kind]
@@ -343,12 +352,14 @@ class NpaTask(Task):
             cfg["k_higher"] = k_hi
         if history:
             cfg["earlier_calls_on_the_same_object"] = list(history)
+        if game_name:
+            cfg["game"] = game_name
         super().__init__(name, cfg)
-        self.shape, self.k, self.kind, self.k_hi, self.history = shape, k, kind, k_hi, tuple(history)
+        self.shape, self.k, self.kind, self.k_hi, self.history, self.game = shape, k, kind, k_hi, tuple(history), game
 
     def _capture(self, k):
         A, B, X, Y = self.shape
-        p, V = game_instance(A, B, X, Y)
+        p, V = self.game() if self.game else game_instance(A, B, X, Y)
         cap = capture_call(lambda: game_after(p, V, self.history).commuting_measurement_value_upper_bound(k))
         prog = extract(cap)
         return prog, p, V
@@ -368,7 +379,17 @@ class NpaTask(Task):
     def _run(self, rec, seed):
         from toqito.helper.npa_hierarchy import _gen_words
         A, B, X, Y = self.shape
-        prog, p, V = self._capture(self.k)
+        try:
+            prog, p, V = self._capture(self.k)
+        except Exception as e:  # noqa: BLE001 - the real code failed while building the relaxation
+            try:
+                self._capture(self.k)
+                rec["notes"].append(f"exception while building the program did not reproduce: {type(e).__name__}: {e}")
+            except Exception as e2:  # noqa: BLE001
+                rec["status"] = "violation"
+                rec["violation"] = {"source": "the real function raises before reaching the solver (reproduced)", "inputs": jsonable(self.cfg),
+                                    "exception": f"{type(e2).__name__}: {str(e2)[:300]}"}
+            return
         rec["programs"] = 1
         rec["program"] = prog.summary()["constraints"]
         Ms, Ri = self._vars(prog)
